@@ -102,6 +102,20 @@ func c13Container(closeErrs map[string]error) *restful.Container {
 	return c
 }
 
+var c13NotFound = map[string]string{}
+
+// c13NotFoundBody: what the framework writes for the routing error, measured without any coding
+// (no literal expectation: the wording of error bodies is not part of the property).
+func c13NotFoundBody(id string) string {
+	if v, ok := c13NotFound[id]; ok {
+		return v
+	}
+	rec := h.NewRec()
+	c13Container(map[string]error{}).Dispatch(rec, (h.Req{Method: "GET", Segs: []string{"s", "n", id, "nope"}}).HTTP())
+	c13NotFound[id] = rec.Buf.String()
+	return c13NotFound[id]
+}
+
 // c13Request returns the request of one thread and the decoded body it must receive.
 func c13Request(kind byte, id string) (h.Req, string, int) {
 	a, b := payload(id)
@@ -111,7 +125,7 @@ func c13Request(kind byte, id string) (h.Req, string, int) {
 	case 'D':
 		return h.Req{Method: "GET", Segs: []string{"s", "n", id}, Hdr: [][2]string{{"Accept-Encoding", "deflate"}}}, a + b, 200
 	case 'E':
-		return h.Req{Method: "GET", Segs: []string{"s", "n", id, "nope"}, Hdr: [][2]string{{"Accept-Encoding", "gzip"}}}, "404: Page Not Found", 404
+		return h.Req{Method: "GET", Segs: []string{"s", "n", id, "nope"}, Hdr: [][2]string{{"Accept-Encoding", "gzip"}}}, c13NotFoundBody(id), 404
 	case 'P':
 		return h.Req{Method: "GET", Segs: []string{"s", "p", id}, Hdr: [][2]string{{"Accept-Encoding", "gzip"}}}, a + "recovered:boom-" + id, -1
 	case 'C':
